@@ -29,3 +29,13 @@ proof fn witness_poll_signal_post()
     let bad = PS::<int> { tr: seq![PEv::Closed(false), PEv::Next(None), PEv::Closed(true)], closed_seen: true };
     assert(!pending_only_if_armed(bad, PollResult::<int>::Pending));
 }
+
+// ---- flush(): the non-blocking drain of the self-pipe (unbounded number of reads)
+/// every recv is on the read end, with the whole buffer, and MSG_DONTWAIT (never blocks)
+pub open spec fn flush_calls_ok(tr: Seq<RecvEv>, fd: i32) -> bool {
+    forall|i: int| 0 <= i < tr.len() ==> (#[trigger] tr[i]).fd == fd && tr[i].flags == libc::MSG_DONTWAIT && tr[i].len == 1024
+}
+/// the drain continues exactly as long as bytes come: all results but the last are > 0
+pub open spec fn flush_all_but_last_positive(tr: Seq<RecvEv>) -> bool {
+    forall|i: int| 0 <= i < tr.len() - 1 ==> (#[trigger] tr[i]).ret > 0
+}
